@@ -36,9 +36,9 @@ def e2 : Tpl := ⟨"c2", [.ifc "f" [.ext (.dyn "p")], tx "more junk",
 def eL : List Tpl := [e1, e0, e2]
 def eVars : Vars := [("f", "1".toList), ("p", "c1".toList)]
 
-theorem e_chain : IsChain eL eVars [e2, e1, e0] :=
+private theorem e_chain : IsChain eL eVars [e2, e1, e0] :=
   ⟨rfl, ⟨.dyn "p", rfl, rfl, rfl⟩, rfl, ⟨.lit "c0", rfl, rfl, rfl⟩, rfl, rfl⟩
-theorem e_nodup : ([e2, e1, e0].map (·.name)).Nodup := by decide
+private theorem e_nodup : ([e2, e1, e0].map (·.name)).Nodup := by decide
 
 /-! ### `blocks_after_chain` -/
 
@@ -86,6 +86,8 @@ theorem render_chain (L : List Tpl) (vars : Vars) (c : Tpl) (chain : List Tpl) (
   renderTemplate_chain L vars c chain hops fuel hch hnd hlen hag
 
 example : agreeAll [e2, e1, e0] = true := by decide
+example : renderTemplate eL 9 9 eVars e2.name = renderChain 9 [e2, e1, e0] eVars :=
+  render_chain eL eVars e2 [e1, e0] 9 9 e_chain e_nodup (by decide) (by decide)
 example : renderTemplate eL 9 9 eVars "c2" = .ok "[A0<11><22>|B2<B0>B2<B0>]".toList := by decide
 example : renderChain 9 [e2, e1, e0] eVars = .ok "[A0<11><22>|B2<B0>B2<B0>]".toList := by decide
 example : renderTemplate eL 9 9 eVars "c1" = .ok "[A012|B1(B0)B1(B0)]".toList := by decide
